@@ -30,11 +30,16 @@ Bad(ev) ==
     [] ev.ev = "list"   -> \/ Range(ev.res) # DOMAIN reg
                            \/ Len(ev.res) # Cardinality(DOMAIN reg)
                            \/ ev.sorted # 1
+    \* an override made before the registry was first read must be what the name denotes afterwards
+    [] ev.ev = "init"   -> ev.early # <<>> /\ \A i \in DOMAIN ev.names : ev.names[i][1] = ev.early[1] => ev.names[i][2] # ev.early[2]
+    \* quiescent style listing (auto.ListStyles): sorted and showing every registered name and the four sub-packages
+    [] ev.ev = "styles" -> ev.sorted # 1 \/ ~((DOMAIN reg \cup {"csv", "html", "json", "markdown"}) \subseteq Range(ev.res))
     [] ev.ev = "probe"  -> ev.must = 1 /\ ev.blocked # 1    \* a registration excludes everything; reads may overlap
     [] ev.ev = "nohook" -> TRUE
     [] OTHER -> FALSE
 
-Facet(ev) == CASE ev.ev = "probe" -> "reg.mutex" [] ev.ev = "nohook" -> "reg.mutex" [] OTHER -> "reg." \o ev.ev
+Facet(ev) == CASE ev.ev = "probe" -> "reg.mutex" [] ev.ev = "nohook" -> "reg.mutex" [] ev.ev = "init" -> "reg.early"
+               [] OTHER -> "reg." \o ev.ev
 
 Done(n) == CSVWrite("%1$s", <<ToJson([done |-> TRUE, lines |-> Len(Trace), mismatches |-> n])>>, MisFile)
 
